@@ -30,6 +30,10 @@ pub const PANY: i64 = -3;
 /// bookkeeping.  Only guest blocks take part in the leak judgement; a free of a block the ledger has never seen, or with
 /// a layout other than the one it was allocated with, is reported whoever does it.
 pub struct Ledger;
+/// the ledger is the global allocator of every test program that links this crate (Rust guests: the whole binary;
+/// C guests: the host itself and, through `vh_malloc` and friends, the guest)
+#[global_allocator]
+static LEDGER: Ledger = Ledger;
 type Live = BTreeMap<usize, (usize, usize, bool)>;
 static LIVE: Mutex<Option<Live>> = Mutex::new(None);
 static GUEST: std::sync::atomic::AtomicBool = std::sync::atomic::AtomicBool::new(false);
@@ -323,6 +327,12 @@ fn compare_flat(i: usize, got: u64, fv: &Value, blocks: &Blocks, errs: &mut Vec<
 /// what the guest's `cabi_realloc(null, 0, align, size)` does: a fresh block from the global allocator with exactly that
 /// layout (generated bindings free with `dealloc(ptr, Layout { size, align })`, so the layout is part of the contract)
 unsafe fn cabi_realloc(_old: *mut u8, _old_len: usize, align: usize, new_len: usize) -> *mut u8 {
+    let f = GUEST_REALLOC.load(std::sync::atomic::Ordering::Relaxed);
+    if f != 0 {
+        // C guests register the `cabi_realloc` their bindings export; the host allocates with it like a real one does
+        let f: unsafe extern "C" fn(*mut u8, usize, usize, usize) -> *mut u8 = unsafe { std::mem::transmute(f) };
+        return unsafe { f(std::ptr::null_mut(), 0, align, new_len) };
+    }
     unsafe { std::alloc::alloc(Layout::from_size_align(new_len, align).unwrap()) }
 }
 
@@ -507,3 +517,126 @@ pub fn guest_event(kind: &str, detail: &str) {
     ST.with(|s| s.borrow_mut().as_mut().unwrap().out.push(serde_json::json!({"guest": kind, "detail": detail})));
     track(true);
 }
+
+// ---------------------------------------------------------------- C ABI (guests written in C: C10, C11)
+/// The same host for natively compiled C bindings.  The generated C and the test code are compiled with
+/// `-Dmalloc=vh_malloc -Dfree=vh_free -Drealloc=vh_realloc -Dcalloc=vh_calloc -Daligned_alloc=vh_aligned_alloc`, so that
+/// every allocation of the guest goes through the ledger; memory the host hands to the guest is obtained from the
+/// guest's own exported `cabi_realloc`, exactly as a component-model host does.
+pub mod cabi {
+    use super::*;
+    use std::ffi::{c_char, c_void, CStr};
+
+    const HDR: usize = 16;
+
+    unsafe fn c_alloc(size: usize, zero: bool) -> *mut c_void {
+        let layout = Layout::from_size_align(size.max(1) + HDR, HDR).unwrap();
+        let p = unsafe { if zero { std::alloc::alloc_zeroed(layout) } else { std::alloc::alloc(layout) } };
+        if p.is_null() {
+            return p as *mut c_void;
+        }
+        unsafe { *(p as *mut usize) = size };
+        unsafe { p.add(HDR) as *mut c_void }
+    }
+
+    #[unsafe(no_mangle)]
+    pub unsafe extern "C" fn vh_malloc(size: usize) -> *mut c_void {
+        unsafe { c_alloc(size, false) }
+    }
+    #[unsafe(no_mangle)]
+    pub unsafe extern "C" fn vh_calloc(n: usize, size: usize) -> *mut c_void {
+        unsafe { c_alloc(n * size, true) }
+    }
+    #[unsafe(no_mangle)]
+    pub unsafe extern "C" fn vh_aligned_alloc(_align: usize, size: usize) -> *mut c_void {
+        unsafe { c_alloc(size, false) }
+    }
+    #[unsafe(no_mangle)]
+    pub unsafe extern "C" fn vh_free(p: *mut c_void) {
+        if p.is_null() {
+            return;
+        }
+        let base = unsafe { (p as *mut u8).sub(HDR) };
+        // the ledger knows the block by its base address; an unknown pointer is reported there and not freed
+        let known = with_live(|m| m.get(&(base as usize)).map(|x| x.0));
+        match known {
+            Some(Some(total)) => unsafe { std::alloc::dealloc(base, Layout::from_size_align(total, HDR).unwrap()) },
+            _ => problem("free-unknown", &format!("free({:#x}) of a pointer that is not a live malloc block", p as usize)),
+        }
+    }
+    #[unsafe(no_mangle)]
+    pub unsafe extern "C" fn vh_realloc(p: *mut c_void, size: usize) -> *mut c_void {
+        if p.is_null() {
+            return unsafe { c_alloc(size, false) };
+        }
+        let base = unsafe { (p as *mut u8).sub(HDR) };
+        let old = unsafe { *(base as *const usize) };
+        let q = unsafe { c_alloc(size, false) };
+        unsafe { std::ptr::copy_nonoverlapping(p as *const u8, q as *mut u8, old.min(size)) };
+        unsafe { vh_free(p) };
+        q
+    }
+
+    /// a host-owned copy of a C string (allocated as host bookkeeping whatever the current mode is)
+    fn cstr(p: *const c_char) -> String {
+        let was = GUEST.swap(false, std::sync::atomic::Ordering::Relaxed);
+        let s = unsafe { CStr::from_ptr(p) }.to_string_lossy().into_owned();
+        GUEST.store(was, std::sync::atomic::Ordering::Relaxed);
+        s
+    }
+
+    #[unsafe(no_mangle)]
+    pub extern "C" fn vh_init(guest_realloc: usize) {
+        GUEST_REALLOC.store(guest_realloc, std::sync::atomic::Ordering::Relaxed);
+        init();
+    }
+    #[unsafe(no_mangle)]
+    pub extern "C" fn vh_finish() {
+        finish();
+    }
+    #[unsafe(no_mangle)]
+    pub extern "C" fn vh_select(case: usize) {
+        select(case);
+    }
+    #[unsafe(no_mangle)]
+    pub extern "C" fn vh_cases() -> usize {
+        ST.with(|s| s.borrow().as_ref().unwrap().vector["cases"].as_array().unwrap().len())
+    }
+    #[unsafe(no_mangle)]
+    pub extern "C" fn vh_begin(what: *const c_char) {
+        begin(&cstr(what));
+    }
+    #[unsafe(no_mangle)]
+    pub extern "C" fn vh_end(what: *const c_char) {
+        end(&cstr(what));
+    }
+    #[unsafe(no_mangle)]
+    pub extern "C" fn vh_import_call(key: *const c_char, args: *const u64, n: usize) -> u64 {
+        let a = unsafe { std::slice::from_raw_parts(args, n) };
+        import_call(&cstr(key), a)
+    }
+    #[unsafe(no_mangle)]
+    pub extern "C" fn vh_export_args(name: *const c_char, out: *mut u64, cap: usize) -> usize {
+        let n = cstr(name);
+        let v = export_args(&n);
+        for (i, x) in v.iter().enumerate().take(cap) {
+            unsafe { *out.add(i) = *x };
+        }
+        let len = v.len();
+        let was = GUEST.swap(false, std::sync::atomic::Ordering::Relaxed);
+        drop(v);
+        drop(n);
+        GUEST.store(was, std::sync::atomic::Ordering::Relaxed);
+        len
+    }
+    #[unsafe(no_mangle)]
+    pub extern "C" fn vh_export_result(name: *const c_char, ret: u64) {
+        export_result(&cstr(name), ret);
+    }
+    #[unsafe(no_mangle)]
+    pub extern "C" fn vh_note(kind: *const c_char, detail: *const c_char) {
+        guest_event(&cstr(kind), &cstr(detail));
+    }
+}
+
+static GUEST_REALLOC: std::sync::atomic::AtomicUsize = std::sync::atomic::AtomicUsize::new(0);
